@@ -49,3 +49,20 @@ where
         terminate_on_signal,
     })
 }
+
+/// The compiled criteria as a tuple, for an external verification harness.
+/// Compiled only with `RUSTFLAGS="--cfg cambrian_verif"`.
+#[cfg(cambrian_verif)]
+#[allow(clippy::type_complexity)]
+pub fn verif_compile(
+    termination_criteria: Vec<TerminationCriterion>,
+) -> Result<(Option<usize>, Option<f64>, Option<Duration>, bool), Error> {
+    compile(termination_criteria).map(|c| {
+        (
+            c.max_num_obj_func_eval,
+            c.target_obj_func_val,
+            c.terminate_after,
+            c.terminate_on_signal,
+        )
+    })
+}
